@@ -136,6 +136,25 @@ fn check_block(k: u32, t: u16, max_win: u32) -> Result<u64, String> {
             }
         }
     }
+    // the encoder is asked again in another order (descending singles, then a far packet, then the first window):
+    // answers must not depend on what was asked before
+    for sidx in (0..max_win).rev() {
+        let one = guarded(|| enc.repair_packets(sidx, 1)).map_err(|e| format!("K={}: panic {}", k, e))?;
+        if one[0] != base[(k + sidx) as usize] {
+            return Err(format!("K={}: repair packet {} requested again after other requests differs from the first answer", k, sidx));
+        }
+        n += 1;
+    }
+    {
+        let far = far_esis(k);
+        let f1 = repair_packet(enc, k, far[3]);
+        let again = guarded(|| enc.repair_packets(0, max_win)).map_err(|e| format!("K={}: panic {}", k, e))?;
+        let f2 = repair_packet(enc, k, far[3]);
+        if again[..] != base[k as usize..(k + max_win) as usize] || f1 != f2 || guarded(|| enc.source_packets()).map_err(|e| format!("K={}: panic {}", k, e))?[..] != base[..k as usize] {
+            return Err(format!("K={}: the same requests repeated on the same encoder give different packets", k));
+        }
+        n += 1;
+    }
     // far end: the last producible ESI is 2^24 - 1
     let last_start = (1u32 << 24) - k;
     for len in 1..=4u32 {
@@ -236,6 +255,28 @@ fn check_object(f: u64, t: u16, z: u8, n: u16, al: u8, r: u32) -> Result<(), Str
             return Err(format!("({},{},{},{},{}) r={}: block {} packets differ from the block encoder's own", f, t, z, n, al, r, bi));
         }
         i += (b.K + r) as usize;
+    }
+    // the same Encoder asked again, and asked for more: lists must be stable and extend each other block by block
+    {
+        let again = guarded(|| enc.get_encoded_packets(r)).map_err(|e| format!("get_encoded_packets({}) (second call) panicked: {}", r, e))?;
+        if again != pk {
+            return Err(format!("({},{},{},{},{}) r={}: a second get_encoded_packets({}) call on the same encoder returns a different list", f, t, z, n, al, r, r));
+        }
+        let more = guarded(|| enc.get_encoded_packets(r + 2)).map_err(|e| format!("get_encoded_packets({}) panicked: {}", r + 2, e))?;
+        let (mut i, mut j) = (0usize, 0usize);
+        for b in &lay {
+            let a = (b.K + r) as usize;
+            let c = (b.K + r + 2) as usize;
+            if more[j..j + a] != pk[i..i + a] {
+                return Err(format!("({},{},{},{},{}): block {}: get_encoded_packets({}) is not a per-block prefix of get_encoded_packets({})", f, t, z, n, al, b.sbn, r, r + 2));
+            }
+            i += a;
+            j += c;
+        }
+        let back = guarded(|| enc.get_encoded_packets(r)).map_err(|e| format!("get_encoded_packets({}) (third call) panicked: {}", r, e))?;
+        if back != pk {
+            return Err(format!("({},{},{},{},{}) r={}: get_encoded_packets({}) after a larger request returns a different list", f, t, z, n, al, r, r));
+        }
     }
     // ... and what a stand-alone block encoder (own plan from the cache, and an explicitly generated plan) gives
     // for the same bytes: plans handed from block to block inside Encoder::new must be interchangeable
